@@ -50,14 +50,16 @@ CHECKS = {
                 "cur (latest setting) and held (what the client holds): is_visible/state report the latest setting, an unheld entity is never classified plain Visible, "
                 "drain_lost yields exactly held-and-hidden, update commits, remove_despawned keeps a pending loss, other entities untouched; both policies, all call sequences by induction.",
         "design_ref": "DESIGN.md §4 U6, §5 C08",
-        "note": "Assumed: hashbrown map/set/Entry semantics (shims). Not covered: that collect_despawns/collect_removals/collect_changes (Bevy systems) honour the classification for every byte they emit.",
+        "note": "Assumed: hashbrown map/set/Entry semantics (shims). The Bevy systems collect_despawns/collect_removals/collect_changes cannot be put under contract; a BOUNDED native stand-in (u06s, labelled bounded, not counted as proved) "
+                "drives a real server and two real clients through every operation sequence to depth 4/5 and checks the bytes on the wire and the client worlds. Not covered: loss/delay/reordering schedules, more than two entities.",
         "technique": "contract-based deductive verification: Verus requires/ensures/invariants woven onto verbatim-extracted functions; native bounded search only to exhibit a failing input",
     },
     "C06": {
         "text": "Proof (decoders only) on the real code and real dependencies: entity decoding is total over all byte strings; BufFlavor::pop makes progress on every non-empty buffer; "
                 "acknowledgement index decode/advance; trigger target-list decoding neither panics nor reserves more than the message length (complete for the length-prefix attack, bounded to 3-byte messages in the quick tier otherwise).",
         "design_ref": "DESIGN.md §4 U4, U9, U10, §5 C06",
-        "note": "Decoders only. Not covered: the Bevy systems that call them (receive_acks' lookup of the sender's ClientTicks, ClientEvent::receive_typed, user event types' own Deserialize) and 'keeps serving every client afterwards'. "
+        "note": "Proof for the decoders only. The Bevy systems that call them (receive_acks, ClientEvent::receive_typed, trigger reception, check_protocol) are covered by a BOUNDED native stand-in (u10s: every byte string up to length 2, "
+                "thorough up to length 5 over 16 boundary bytes, from an authorized and an unauthorized client on every registered channel; no panic and the server keeps serving) - labelled bounded, not counted as proved. Not covered: user event types' own Deserialize. "
                 "Bounded part (trigger_deserialize over all messages <= 3 bytes) is listed as bounded in the evidence and not counted as proved.",
         "technique": "contract-based deductive verification: Kani/CBMC contract harnesses on the real crate (complete where loop-free / fully unwound; one bounded stand-in, labelled)",
     },
